@@ -1,6 +1,202 @@
-From Coq Require Import List ZArith.
+(* C47 — property theorems only.  Model: PP.Model.C47 (transcription of txt_io.py,
+   FractureNetwork2d/3d.to_csv, network_2d/3d_from_csv, the FractureNetwork2d
+   constructor); proofs: PP.Proofs.C47 (txt), PP.Proofs.C47_csv (csv).
+
+   Text = list of code points.  print / parse stand for python's number formatting and
+   float(); they are arguments of every statement.
+
+   Predicates used below (defined in Proofs.C47):
+     tok_ok t      : t is not empty and contains no character with str.isspace()
+     value_ok f v  : print f v is tok_ok, contains no '#', and parse (print f v) = Some v
+                     (the value is exactly representable in the column's format)
+     names_ok ns   : every name tok_ok, names pairwise distinct, ns not empty and its first
+                     name does not start with '#'
+     table_ok l n  : names_ok (headers of l), every array has length n and all its entries
+                     are value_ok for the column's format *)
+From Coq Require Import List ZArith Bool Arith Lia Permutation.
 Import ListNotations.
-From PP Require Import Model.C47.
-Theorem C47_placeholder : split_ws [97; 32; 98]%Z = [[97]; [98]]%Z.
-Proof. reflexivity. Qed.
-Print Assumptions C47_placeholder.
+From PP Require Import Model.C47 Proofs.C47 Proofs.C47_csv.
+
+(* txt: for ANY number of columns >= 1 and ANY number of rows >= 1 (one column, one row and
+   1x1 included), exporting named arrays and reading the file back returns exactly the same
+   names with the same arrays, in the same order. *)
+Theorem C47_txt_roundtrip :
+  forall (V F : Type) (print : F -> V -> str) (parse : str -> option V) (v0 : V)
+         (l : list (txtdata V F)) (n : nat),
+    l <> [] -> 1 <= n -> table_ok V F print parse l n ->
+    exists file,
+      export_data_to_txt V F print v0 l = Ok file /\
+      read_data_from_txt V parse v0 file = Ok (map (fun d => (header d, array d)) l).
+Proof. exact txt_roundtrip. Qed.
+Print Assumptions C47_txt_roundtrip.
+
+(* txt, no rows (outside the round trip: numpy reports "input contained no data"): what
+   the code returns is stated, not hidden — only the first name comes back, with an empty
+   array; for a single column that is the table that was written. *)
+Theorem C47_txt_no_rows :
+  forall (V F : Type) (print : F -> V -> str) (parse : str -> option V) (v0 : V)
+         (d0 : txtdata V F) (l' : list (txtdata V F)),
+    table_ok V F print parse (d0 :: l') 0 ->
+    exists file,
+      export_data_to_txt V F print v0 (d0 :: l') = Ok file /\
+      read_data_from_txt V parse v0 file = Ok [(header d0, [])].
+Proof. exact txt_no_rows. Qed.
+Print Assumptions C47_txt_no_rows.
+
+(* csv, 2-D: for EVERY list of line fractures with distinct end points (any sharing of end
+   points between fractures, any order), the network built from them, written with or
+   without header and read back with the matching skip_header, is the identical network
+   (same point array, same edge array) and the returned ids are 0..n-1.
+   Hypotheses: "close" is equality on the coordinates in play; repr/float round trip;
+   uniquify_point_set maps every point to a representative with the same coordinates. *)
+Theorem C47_csv2_roundtrip :
+  forall (V : Type) (veqb : V -> V -> bool) (print : V -> str) (printi : nat -> str)
+         (parse : str -> V) (toint : V -> Z) (v0 : V)
+         (uniq : list (P2 V) -> list (P2 V) * list nat),
+    (forall a b : V, veqb a b = true <-> a = b) ->
+    (forall v : V, parse (print v) = v) ->
+    (forall k : nat, toint (parse (printi k)) = Z.of_nat k) ->
+    (forall l : list (P2 V),
+        length (snd (uniq l)) = length l /\
+        (forall i : nat, i < length l ->
+           nth i (snd (uniq l)) 0 < length (fst (uniq l)) /\
+           nth (nth i (snd (uniq l)) 0) (fst (uniq l)) (p0 V v0) = nth i l (p0 V v0))) ->
+    forall (fracs : list (P2 V * P2 V)) (with_header : bool),
+      Forall (fun f => fst f <> snd f) fracs ->
+      from_csv2 V veqb parse toint v0 uniq (if with_header then 1 else 0)
+                (to_csv2 V print printi v0 with_header (build V veqb fracs))
+      = Ok (build V veqb fracs, map Z.of_nat (seq 0 (length fracs))).
+Proof. exact csv2_roundtrip. Qed.
+Print Assumptions C47_csv2_roundtrip.
+
+(* ... in the property's words: the network read back stands for the same fractures (start
+   and end point of each), in the same order. *)
+Theorem C47_csv2_same_fractures :
+  forall (V : Type) (veqb : V -> V -> bool) (print : V -> str) (printi : nat -> str)
+         (parse : str -> V) (toint : V -> Z) (v0 : V)
+         (uniq : list (P2 V) -> list (P2 V) * list nat),
+    (forall a b : V, veqb a b = true <-> a = b) ->
+    (forall v : V, parse (print v) = v) ->
+    (forall k : nat, toint (parse (printi k)) = Z.of_nat k) ->
+    (forall l : list (P2 V),
+        length (snd (uniq l)) = length l /\
+        (forall i : nat, i < length l ->
+           nth i (snd (uniq l)) 0 < length (fst (uniq l)) /\
+           nth (nth i (snd (uniq l)) 0) (fst (uniq l)) (p0 V v0) = nth i l (p0 V v0))) ->
+    forall (fracs : list (P2 V * P2 V)) (with_header : bool),
+      Forall (fun f => fst f <> snd f) fracs ->
+      exists net' ids,
+        from_csv2 V veqb parse toint v0 uniq (if with_header then 1 else 0)
+                  (to_csv2 V print printi v0 with_header (build V veqb fracs)) = Ok (net', ids)
+        /\ fracs_of V v0 net' = fracs
+        /\ ids = map Z.of_nat (seq 0 (length fracs)).
+Proof. exact csv2_same_fractures. Qed.
+Print Assumptions C47_csv2_same_fractures.
+
+(* csv, 3-D: for EVERY list of polygons with >= 3 vertices that pass the reader's
+   planarity/convexity check, with or without a domain box (6 numbers), the network read
+   back has the same domain and, fracture by fracture in the same order, the vertices
+   sort_points makes of the vertices written. *)
+Theorem C47_csv3_roundtrip :
+  forall (V : Type) (print : V -> str) (parse : str -> option V)
+         (sortp : list (P3 V) -> list (P3 V)) (accept : list (P3 V) -> bool),
+    (forall v, parse (print v) = Some v) ->
+    (forall v, exists c r, print v = c :: r /\ c <> HASH) ->
+    forall (net : list (list (P3 V))) (dom : option (list V)),
+      Forall (fun f => 3 <= length f) net ->
+      Forall (fun f => accept (sortp f) = true) net ->
+      match dom with Some b => length b = 6 | None => net <> [] end ->
+      from_csv3 V parse sortp accept (has_dom V dom) (to_csv3 V print net dom)
+      = Ok (dom, map sortp net).
+Proof. exact csv3_roundtrip. Qed.
+Print Assumptions C47_csv3_roundtrip.
+
+(* ... with sort_points a permutation of its input: the same vertex multiset per fracture. *)
+Theorem C47_csv3_same_fractures :
+  forall (V : Type) (print : V -> str) (parse : str -> option V)
+         (sortp : list (P3 V) -> list (P3 V)) (accept : list (P3 V) -> bool),
+    (forall v, parse (print v) = Some v) ->
+    (forall v, exists c r, print v = c :: r /\ c <> HASH) ->
+    forall (net : list (list (P3 V))) (dom : option (list V)),
+      (forall f, Permutation (sortp f) f) ->
+      Forall (fun f => 3 <= length f) net ->
+      Forall (fun f => accept (sortp f) = true) net ->
+      match dom with Some b => length b = 6 | None => net <> [] end ->
+      exists net',
+        from_csv3 V parse sortp accept (has_dom V dom) (to_csv3 V print net dom) = Ok (dom, net')
+        /\ Forall2 (fun f' f => Permutation f' f) net' net.
+Proof. exact csv3_same_fractures. Qed.
+Print Assumptions C47_csv3_same_fractures.
+
+(* error branch: the first polygon the reader's check refuses makes the read fail with an
+   AssertionError (e.g. a non-convex polygon read with the default check_convexity=True). *)
+Theorem C47_csv3_rejects :
+  forall (V : Type) (print : V -> str) (parse : str -> option V)
+         (sortp : list (P3 V) -> list (P3 V)) (accept : list (P3 V) -> bool),
+    (forall v, parse (print v) = Some v) ->
+    (forall v, exists c r, print v = c :: r /\ c <> HASH) ->
+    forall (net1 : list (list (P3 V))) (f : list (P3 V)) (net2 : list (list (P3 V)))
+           (dom : option (list V)),
+      Forall (fun g => 3 <= length g) (net1 ++ f :: net2) ->
+      Forall (fun g => accept (sortp g) = true) net1 ->
+      accept (sortp f) = false ->
+      match dom with Some b => length b = 6 | None => True end ->
+      from_csv3 V parse sortp accept (has_dom V dom) (to_csv3 V print (net1 ++ f :: net2) dom)
+      = Err AssertErr.
+Proof. exact csv3_rejects. Qed.
+Print Assumptions C47_csv3_rejects.
+
+(* ---- non-vacuity ------------------------------------------------------------------- *)
+(* txt: one column "a" with three values (the input that used to come back as a scalar),
+   and a 1x1 table; digits stand for themselves. *)
+
+Example C47_txt_nonvacuous :
+  let l := [Build_txtdata Z unit [97; 95; 98] [1; 5; 3] tt]%Z in
+  table_ok Z unit ex_print ex_parse l 3 /\
+  export_data_to_txt Z unit ex_print 0%Z l
+  = Ok [[35; 32; 97; 95; 98; 32; 10]; [49; 32; 10]; [53; 32; 10]; [51; 32; 10]]%Z /\
+  read_data_from_txt Z ex_parse 0%Z
+    [[35; 32; 97; 95; 98; 32; 10]; [49; 32; 10]; [53; 32; 10]; [51; 32; 10]]%Z
+  = Ok [([97; 95; 98], [1; 5; 3])]%Z /\
+  table_ok Z unit ex_print ex_parse [Build_txtdata Z unit [97] [7] tt]%Z 1.
+Proof.
+  cbv zeta. split; [|split; [vm_compute; reflexivity|split; [vm_compute; reflexivity|]]].
+  all: unfold table_ok, names_ok, value_ok, tok_ok, nows; cbn [map header array format].
+  all: repeat split; repeat constructor; try discriminate; try reflexivity;
+    try (intros [H|[]]; discriminate H); try (intros []).
+Qed.
+
+(* csv: a concrete print/parse pair, the identity uniquification and the identity sort
+   satisfy every hypothesis of the csv theorems. *)
+
+Example C47_csv2_nonvacuous :
+  (forall a b : Z, Z.eqb a b = true <-> a = b) /\
+  (forall v, ex_pa (ex_pr v) = v) /\
+  (forall k, (fun v : Z => v) (ex_pa (ex_pri k)) = Z.of_nat k) /\
+  (forall l : list (Z * Z),
+      length (snd (ex_uniq l)) = length l /\
+      (forall i, i < length l ->
+         nth i (snd (ex_uniq l)) 0 < length (fst (ex_uniq l)) /\
+         nth (nth i (snd (ex_uniq l)) 0) (fst (ex_uniq l)) (p0 Z 0%Z) = nth i l (p0 Z 0%Z))) /\
+  let fracs := [((0, 0), (1, 3)); ((1, 3), (4, 0)); ((0, 5), (4, 0))]%Z in
+  Forall (fun f => fst f <> snd f) fracs /\
+  build Z Z.eqb fracs = mk2 [(0, 0); (1, 3); (4, 0); (0, 5)]%Z [(0, 1); (1, 2); (3, 2)].
+Proof.
+  split; [exact Z.eqb_eq|]. split; [reflexivity|]. split; [reflexivity|]. split.
+  - intro l. unfold ex_uniq. cbn [fst snd]. rewrite seq_length. split; [reflexivity|].
+    intros i Hi. rewrite seq_nth by exact Hi. cbn [plus]. split; [exact Hi|reflexivity].
+  - cbv zeta. split; [|vm_compute; reflexivity].
+    repeat constructor; cbn [fst snd]; discriminate.
+Qed.
+
+Example C47_csv3_nonvacuous :
+  let pa := fun s : str => match s with [_; v] => Some v | _ => None end in
+  (forall v, pa (ex_pr v) = Some v) /\
+  (forall v, exists c r, ex_pr v = c :: r /\ c <> HASH) /\
+  let net := [[(0, 0, 0); (2, 0, 0); (0, 0, 1)]]%Z in
+  from_csv3 Z pa (fun l => l) (fun _ => true) true (to_csv3 Z ex_pr net (Some [0; 0; 0; 9; 9; 9]%Z))
+  = Ok (Some [0; 0; 0; 9; 9; 9]%Z, net).
+Proof.
+  cbv zeta. split; [reflexivity|]. split; [|vm_compute; reflexivity].
+  intro v. exists 48%Z, [v]. split; [reflexivity|discriminate].
+Qed.
